@@ -10,4 +10,5 @@ import DnsVerif.Props.C09
 #print axioms DnsVerif.Props.C09.text_normal_form_full_false
 #print axioms DnsVerif.Props.C09.rangepoint_text_roundtrip
 #print axioms DnsVerif.Props.C09.accumulator_line_compiles
+#print axioms DnsVerif.Props.C09.preprocess_preserves_compile
 #print axioms DnsVerif.Props.C09.preprocess_preserves_compile_full_false
